@@ -177,6 +177,8 @@ struct Slot {
     prog: *const u64,
     last_beat: u64,
     last_change: Instant,
+    /// CPU time (user+system, seconds) the worker had used when it last made progress
+    cpu_at_change: f64,
     cur_stats: BTreeMap<String, u64>,
     done: bool,
     finished: bool,
@@ -262,12 +264,25 @@ fn spawn(args: &[String], shard: usize, nshards: usize, resume_after: i64, dir: 
         prog,
         last_beat: 0,
         last_change: Instant::now(),
+        cpu_at_change: 0.0,
         cur_stats: BTreeMap::new(),
         done: false,
         finished: false,
         resume_after,
         stderr_tail,
     }
+}
+
+/// user + system CPU time of a process (and its threads) in seconds, from /proc.
+fn cpu_seconds(pid: u32) -> f64 {
+    let Ok(s) = std::fs::read_to_string(format!("/proc/{}/stat", pid)) else { return 0.0 };
+    // fields after the closing parenthesis of the command name
+    let Some(rest) = s.rfind(')').map(|i| &s[i + 1..]) else { return 0.0 };
+    let f: Vec<&str> = rest.split_whitespace().collect();
+    // utime = field 14, stime = field 15 of the full line; `rest` starts at field 3
+    let ut: f64 = f.get(11).and_then(|x| x.parse().ok()).unwrap_or(0.0);
+    let st: f64 = f.get(12).and_then(|x| x.parse().ok()).unwrap_or(0.0);
+    (ut + st) / 100.0
 }
 
 fn describe(args: &[String], idx: u64, extra_env: &[(String, String)]) -> Value {
@@ -316,6 +331,7 @@ pub fn run_sharded(args: &[String], nshards: usize, case_timeout: Duration, wall
             if beat != slot.last_beat {
                 slot.last_beat = beat;
                 slot.last_change = Instant::now();
+                slot.cpu_at_change = cpu_seconds(slot.child.id());
             }
             let mut died: Option<String> = None;
             match slot.child.try_wait() {
@@ -334,7 +350,12 @@ pub fn run_sharded(args: &[String], nshards: usize, case_timeout: Duration, wall
                     died = Some(format!("worker exited with {} ; stderr tail: {}", status, slot.stderr_tail.lock().unwrap().trim()));
                 }
                 Ok(None) => {
-                    if case != NO_CASE && slot.last_change.elapsed() > case_timeout {
+                    // A hang is judged on the worker's own CPU time, so that a machine under load (a
+                    // starved worker) is not mistaken for a looping one; a worker that neither progresses
+                    // nor burns CPU (blocked for good) is given ten times the limit of wall time.
+                    let stuck_wall = slot.last_change.elapsed();
+                    let stuck_cpu = cpu_seconds(slot.child.id()) - slot.cpu_at_change;
+                    if case != NO_CASE && stuck_wall > case_timeout && (stuck_cpu > case_timeout.as_secs_f64() || stuck_wall > case_timeout * 10) {
                         let _ = slot.child.kill();
                         let _ = slot.child.wait();
                         while let Ok(l) = slot.rx.try_recv() {
